@@ -70,21 +70,17 @@ theorem repr_clean (pr : Char → Bool) (cs : List Char) : Clean (pyReprL pr cs)
   intro c hc
   exact cleanC_of_ge (reprBody_ge pr _ hq cs c hc)
 
-theorem doc_clean (d : List Char) (h : cNUL ∉ d) : Clean (docWrapL d) := by
+theorem doc_clean (d : List Char) : Clean (docWrapL d) := by
   have hA : Clean ([cDQ, cDQ, cDQ, cLF] ++ indent4) := by unfold Clean; decide
   have hB : Clean ([cLF] ++ indent4 ++ [cDQ, cDQ, cDQ]) := by unfold Clean; decide
   have hE : Clean (docEsc 0 d) := by
     intro c hc
-    rcases docEsc_mem d 0 c hc with rfl | rfl | rfl | ⟨hm, hcr⟩
-    · exact ⟨by decide, by decide⟩
-    · exact ⟨by decide, by decide⟩
-    · exact ⟨by decide, by decide⟩
-    · exact ⟨fun e => h (e ▸ hm), hcr⟩
+    obtain ⟨h1, h2⟩ := docEsc_clean d 0 c hc
+    exact ⟨h2, h1⟩
   have e : docWrapL d = ([cDQ, cDQ, cDQ, cLF] ++ indent4) ++ (docEsc 0 d ++ ([cLF] ++ indent4 ++ [cDQ, cDQ, cDQ])) := by
     simp [docWrapL, List.append_assoc]
   rw [e]
   exact clean_append hA (clean_append hE hB)
-
 
 theorem clean_lit {l : List Char} (h : l.all (fun c => decide (cleanC c)) = true) : Clean l := by
   intro c hc
@@ -173,8 +169,7 @@ theorem renderItem_clean (pr : Char → Bool) (it : Item) (h : wfItem it = true)
   | blank => exact clean_nil
   | pass => exact clean_append hi (clean_lit (by decide))
   | doc d =>
-    simp only [wfItem, Bool.not_eq_true', List.contains_eq_mem, decide_eq_false_iff_not] at h
-    exact clean_append hi (clean_append (doc_clean d h) (clean_lit (by decide)))
+    exact clean_append hi (clean_append (doc_clean d) (clean_lit (by decide)))
   | ann n e =>
     simp only [wfItem, Bool.and_eq_true] at h
     exact clean_append hi (clean_append (word_clean (targetName_word h.1).1)
